@@ -160,12 +160,29 @@ pub fn string(s: &[u8], huff: bool) -> Vec<u8> {
         o
     }
 }
-#[derive(Default, Clone)]
+#[derive(Clone)]
 pub struct HpackEnc {
     /// most recent first
     pub dynamic: Vec<(String, String)>,
+    /// current maximum size of the dynamic table (RFC 7541 section 4.1: entry size = name + value + 32)
+    pub max: usize,
+}
+impl Default for HpackEnc {
+    fn default() -> Self {
+        HpackEnc { dynamic: vec![], max: 4096 }
+    }
 }
 impl HpackEnc {
+    fn evict(&mut self) {
+        let size = |d: &Vec<(String, String)>| d.iter().map(|(a, b)| a.len() + b.len() + 32).sum::<usize>();
+        while !self.dynamic.is_empty() && size(&self.dynamic) > self.max {
+            self.dynamic.pop();
+        }
+    }
+    fn insert(&mut self, name: &str, value: &str) {
+        self.dynamic.insert(0, (name.to_string(), value.to_string()));
+        self.evict();
+    }
     fn find_pair(&self, n: &str, v: &str) -> Option<usize> {
         if let Some(i) = STATIC_TABLE.iter().position(|(a, b)| *a == n && *b == v) {
             return Some(i + 1);
@@ -178,7 +195,9 @@ impl HpackEnc {
         }
         self.dynamic.iter().position(|(a, _)| a == n).map(|i| 62 + i)
     }
-    pub fn size_update(&self, size: usize) -> Vec<u8> {
+    pub fn size_update(&mut self, size: usize) -> Vec<u8> {
+        self.max = size;
+        self.evict();
         int(size, 5, 0x20)
     }
     pub fn field(&mut self, name: &str, value: &str, rep: Rep, huff_name: bool, huff_value: bool) -> Vec<u8> {
@@ -199,18 +218,18 @@ impl HpackEnc {
                 Some(i) => int(i, 7, 0x80),
                 None => {
                     let o = lit(0x40, 6, self.find_name(name));
-                    self.dynamic.insert(0, (name.to_string(), value.to_string()));
+                    self.insert(name, value);
                     o
                 }
             },
             Rep::LitIdxNewName => {
                 let o = lit(0x40, 6, None);
-                self.dynamic.insert(0, (name.to_string(), value.to_string()));
+                self.insert(name, value);
                 o
             }
             Rep::LitIdxIndexedName => {
                 let o = lit(0x40, 6, self.find_name(name));
-                self.dynamic.insert(0, (name.to_string(), value.to_string()));
+                self.insert(name, value);
                 o
             }
             Rep::LitNoIdx => lit(0x00, 4, None),
